@@ -1189,13 +1189,13 @@ class ModelMixin:
         if c.modifies is None:
             return out
         for loc in c.modifies(ctx):
-            if loc[0] in ('f', 'm'):
+            if loc[0] in ('f', 'm', 'i'):
                 ref = loc[1]
                 if isinstance(ref, Opt):
                     ref = ref.val
                 if not isinstance(ref, Ref):
                     continue
-                out.append((loc[0], ref.oid, loc[2]))
+                out.append((loc[0], ref.oid, loc[2]) if loc[0] != 'i' else ('i', ref.oid))
             elif loc[0] == 'g':
                 out.append(tuple(loc))
             else:
@@ -1211,6 +1211,14 @@ class ModelMixin:
         for k in keys:
             if k not in snap:
                 continue
+            if k[0] == 'i':
+                # the items of a concrete list may change: from here on it is a list of unknown content
+                from .contracts import ExtT, ListOfT
+                if st.heap[k[1]].kind == 'list':
+                    tmp = self.make_symbolic(ListOfT(ExtT('havocked_item'), name='havocked_list'), 'havocked_list', st)
+                    st.heap[k[1]] = st.heap.pop(tmp.oid)
+                    continue
+                raise EngineError('modifies: items of a concrete dict / set cannot be havocked')
             if k[0] == 'f':
                 h = st.heap[k[1]]
                 ft = None
